@@ -299,6 +299,16 @@ def gen_C15(tier, seed):
                     p.add(lf, 'comment', 'C', set_name=sn, text=L(S('x')))
             p.write(1)
             progs.append(p.build())
+    # several files in one process with different maximum record lengths (descending, ascending, back to the first): every
+    # accepted length can be written with, whatever was written before (C15: "records of any body length ... every maximum
+    # record length"); the 'size' kind lets the C01/C02 clauses count as well
+    seqs = [[8192, 64, 20, 130, 8192], [20, 8192, 22], [16384, 8192, 1024, 128, 32], [64, 64, 32, 64], [256, 26, 256, 24]]
+    for i, vrls in enumerate(seqs if tier == 'thorough' else seqs[:3]):
+        p = Prog(f'C15-lengths-{i}', {'kind': 'size', 'variant': 'lengths-in-one-process', 'vrls': vrls})
+        for fid, vrl in enumerate(vrls, start=1):
+            simple_file(p, rng, fid=fid, vrl=vrl, nchan=2, rows=3, widths=[None, 9], extra_objects=True, fh_id='SAME-HEADER')
+            p.write(fid, fname=f'f{fid}.dlis', out_chunk=max(vrl, 4096))
+        progs.append(p.build())
     return progs
 
 
